@@ -36,5 +36,11 @@ func VerifyMerkelProof(txid, root, proof []byte, index uint32) bool {
 		index >>= 1
 	}
 
+	// the position must be smaller than 2^(path length): every bit beyond the
+	// path has to be zero, otherwise a leaf could be presented at another index
+	if index != 0 {
+		return false
+	}
+
 	return bytes.Equal(current, root)
 }
